@@ -14,7 +14,7 @@ impl Prop for C07 {
     fn rule(&self) -> String {
         "library with randomness left to the implementation: batches of N identical key_encrypt calls (same keys, same plaintext; N = 24 quick / 400 thorough) — ephemeral public keys (bytes 4..36) pairwise distinct, \
          payload key and file key of every file recovered by the Lean decryptor and pairwise distinct, none equal to an input or to zero; N PrivateKey::generate and secure_random(32) values pairwise distinct; \
-         nonce discipline through the hook: for multi-chunk streams (cs in {1,2,4}, 1..6 chunks) record i opens in the model under nonce i and under no other nonce 0..n. \
+         the real binary: batches of identical `password encrypt`, `encrypt`, `key generate`, `key change-pass` invocations — salts / ephemeral keys / file keys / private keys pairwise distinct; nonce discipline through the hook: for multi-chunk streams (cs in {1,2,4}, 1..6 chunks) record i opens in the model under nonce i and under no other nonce 0..n. \
          non-trivial = distinct (batch / stream shape)".into()
     }
     fn cases(&self, tier: &str, seed: u64) -> Vec<Case> {
@@ -23,6 +23,7 @@ impl Prop for C07 {
         let mut v = vec![];
         for b in 0..(if th { 6 } else { 3 }) { v.push(case(&[("kind", "batch".into()), ("n", (if th { 400 } else { 24 }).to_string()), ("plen", (*[0usize, 13, 70000].get(b % 3).unwrap()).to_string()), ("seed", rng.next().to_string())])); }
         v.push(case(&[("kind", "generate".into()), ("n", (if th { 5000 } else { 300 }).to_string())]));
+        for what in ["pass-encrypt", "encrypt", "key-generate", "change-pass"] { v.push(case(&[("kind", "cli".into()), ("what", what.into()), ("n", (if th { 120 } else { 16 }).to_string()), ("seed", rng.next().to_string())])); }
         for &cs in &[1usize, 2, 4] { for n in 1..=6usize { for rep in 0..(if th { 6 } else { 2 }) {
             v.push(case(&[("kind", "nonces".into()), ("cs", cs.to_string()), ("n", n.to_string()), ("rep", rep.to_string()), ("seed", rng.next().to_string())]));
         } } }
@@ -56,6 +57,37 @@ impl Prop for C07 {
                     if !fks.insert(fk) { o.oracle_fail = Some(("file-key-fresh".into(), format!("two of {} identical encryptions share the file key (file {})", n, i))); return o; }
                 }
                 o.impl_obs = format!("{} files: {} ephemeral, {} payload, {} file keys, all distinct", n, eph.len(), pks.len(), fks.len()); o.model_obs = "opened every header".into();
+            }
+            "cli" => {
+                use crate::cli::*;
+                let fx = fixtures(); let what = get(c, "what"); let n = getn(c, "n");
+                let mut rng = Rng::new(get(c, "seed").parse().unwrap_or(0));
+                let plain = rng.bytes(20);
+                let kr = keyring(&[(&fx.alice, true), (&fx.bob, true)]).into_bytes();
+                let (mut a, mut b) = (HashSet::new(), HashSet::new());
+                o.nontrivial = Some(format!("cli/{}/{}", what, n));
+                for i in 0..n {
+                    // identical invocation every time
+                    let (world, args): (World, Vec<String>) = match what {
+                        "pass-encrypt" => (World { files: vec![("p".into(), plain.clone())], env: vec![("KESTREL_PASSWORD".into(), "same".into())], stdin: vec![] }, sv(&["pass", "enc", "p", "-o", "c", "--env-pass"])),
+                        "encrypt" => (World { files: vec![("p".into(), plain.clone()), ("kr".into(), kr.clone())], env: vec![("KESTREL_PASSWORD".into(), fx.alice.pw.into())], stdin: vec![] }, sv(&["enc", "p", "-t", "bob", "-f", "alice", "-o", "c", "-k", "kr", "--env-pass"])),
+                        "key-generate" => (World { files: vec![], env: vec![("KESTREL_PASSWORD".into(), "same".into())], stdin: b"same name\n".to_vec() }, sv(&["key", "gen", "-o", "c", "--env-pass"])),
+                        _ => (World { files: vec![], env: vec![("KESTREL_PASSWORD".into(), fx.alice.pw.into()), ("KESTREL_NEW_PASSWORD".into(), "same new".into())], stdin: vec![] }, sv(&["key", "change-pass", &fx.alice.enc_sk, "--env-pass"])),
+                    };
+                    let obs = run_kestrel(&world, &args);
+                    if obs.exit != Some(0) { o.oracle_fail = Some(("command-succeeds".into(), format!("{}: {}", what, obs.stderr.trim()))); return o; }
+                    use ct_codecs::{Base64, Decoder};
+                    let (fresh1, fresh2): (Vec<u8>, Vec<u8>) = match what {
+                        "pass-encrypt" => { let f = obs.file("c").cloned().unwrap_or_default(); (f[4..36].to_vec(), f[36..].to_vec()) }
+                        "encrypt" => { let f = obs.file("c").cloned().unwrap_or_default(); let r = m.ask(&format!("key_open {} {} {}", hex(&fx.bob.sk), hex(&fx.bob.pk), hex(&f[..132]))); o.validated += 1; let p: Vec<&str> = r.split(' ').collect(); if p.len() != 5 { o.disagreement = Some(format!("model cannot open CLI output: {}", r)); return o; } (f[4..36].to_vec(), unhex(p[4])) }
+                        "key-generate" => { let t = String::from_utf8_lossy(obs.file("c").map(|x| &x[..]).unwrap_or(&[])).to_string(); let sk = t.lines().find(|l| l.starts_with("PrivateKey = ")).map(|l| l[13..].to_string()).unwrap_or_default(); let blob = Base64::decode_to_vec(&sk, None).unwrap_or(vec![0; 84]); let key = crate::props::c15::rust_unlock(&sk, b"same"); (blob[4..36].to_vec(), key.into_bytes()) }
+                        _ => { let t = String::from_utf8_lossy(&obs.stdout).trim().to_string(); let blob = Base64::decode_to_vec(t.trim_start_matches("PrivateKey = "), None).unwrap_or(vec![0; 84]); (blob[4..36].to_vec(), blob[36..].to_vec()) }
+                    };
+                    if fresh1 == vec![0u8; 32] { o.oracle_fail = Some(("fresh-value-not-zero".into(), format!("{}: all-zero salt / ephemeral key", what))); return o; }
+                    if !a.insert(fresh1) { o.oracle_fail = Some(("fresh-randomness-per-invocation".into(), format!("`kestrel {}` run {} times with identical inputs: invocation {} repeated an earlier {}", args.join(" "), n, i, if what == "encrypt" { "ephemeral key" } else { "salt" }))); return o; }
+                    if !b.insert(fresh2) { o.oracle_fail = Some(("fresh-randomness-per-invocation".into(), format!("`kestrel {}` run {} times with identical inputs: invocation {} repeated an earlier {}", args.join(" "), n, i, match what { "encrypt" => "file key", "key-generate" => "private key", _ => "ciphertext" }))); return o; }
+                }
+                o.impl_obs = format!("{} x `{}`: {} / {} distinct fresh values", n, what, a.len(), b.len());
             }
             "generate" => {
                 let n = getn(c, "n");
